@@ -490,6 +490,43 @@ u_table(uint64_t idx, void *arg)
                            "max and float registers) through regaccess2blockaccess");
 }
 
+/* one instance serving 70000 requests in a row: counters, sequence numbers and whatever else accumulates over the
+ * life of an instance pass 255, 256, 65535 and 65536 */
+static void
+u_marathon(uint64_t idx, void *arg)
+{
+    (void)arg;
+    vh_rng rg;
+    vh_unit_rng(&rg, "marathon", idx);
+    vh_arena_reset();
+    rp_setup(&H, (int)(idx & 1), (int)((idx >> 1) & 1), 128);
+    uint16_t seq = (uint16_t)vh_rand(&rg);
+    const unsigned total = vh_tier ? 140000u : 70000u;
+    char ctx[80];
+    for (unsigned f = 0; f < total; f++) {
+        struct req q;
+        gen_req(&rg, &H, &q, seq++);
+        if (q.bsize > 6 && q.kind != RT_READ_RESP && q.kind != RT_WRITE_RESP && !oversize_mismatch) {
+            q.bsize %= 7;
+            q.plen = q.kind == RT_WRITE_REQ ? q.bsize * (q.w16 ? 2u : 1u) : q.plen;
+        }
+        RPBlockAccess verdict = { .status = RP_RESP_ACK, .address = 0 };
+        if (vh_chance(&rg, 1, 8)) {
+            verdict.status = (RPResponse)vh_below(&rg, 12);
+            verdict.address = (uint32_t)vh_rand(&rg);
+        }
+        VH_CASE4(idx, f, q.kind, q.bsize);
+        snprintf(ctx, sizeof ctx, "marathon %" PRIu64 " frame %u of %u", idx, f, total);
+        step(&H, &q, verdict, ctx);
+        if ((f & 7) == 7 && rp_live_blocks(&H) == 0) {
+            vh_arena_reset();
+            H.nblk = 0;
+        }
+    }
+    VH_COUNT("instance that served more than 65536 frames");
+    vh_sig(0x06300000ull ^ idx);
+}
+
 /* Blocks far beyond the default 128 octets: an allocator with 300000-octet blocks lets one frame carry tens of
  * thousands of words; counts around 2^15 and 2^16 words and octets, both directions, both word sizes, both
  * transports. The oracle is the same pairing as in step(), with the payload compared in full. */
@@ -607,6 +644,9 @@ harness_run(void)
 {
     for (uint64_t i = 0; i < 8u * 13u; i++)
         vh_unit("bigblock", i, u_bigblock, NULL);
+    for (uint64_t i = 0; i < 4; i++)
+        vh_unit("marathon", i, u_marathon, NULL);
+    vh_require("instance that served more than 65536 frames");
     for (uint64_t i = 0; i < (vh_tier ? 80000u : 700u); i++)
         vh_unit("session", i, u_session, NULL);
     for (uint64_t i = 0; i < (vh_tier ? 20000u : 300u); i++)
